@@ -27,7 +27,11 @@ type c15Case struct {
 
 func genC15(t *rapid.T) *c15Case {
 	c := &c15Case{Kind: rapid.SampledFrom([]string{"still", "still", "anim"}).Draw(t, "kind")}
-	cfg := gen.ImgCfg{MaxSide: 32, Kinds: []string{"nrgba"}, Places: []string{"tight"}}
+	// every source type and placement: the metadata and plain paths of Encode convert pixels separately
+	cfg := gen.ImgCfg{MaxSide: 32}
+	if c.Kind == "anim" {
+		cfg = gen.ImgCfg{MaxSide: 32, Kinds: []string{"nrgba", "rgba", "generic"}, Places: []string{"tight"}}
+	}
 	c.Img = gen.DrawImg(t, cfg)
 	if rapid.Bool().Draw(t, "lossless") {
 		c.Opts = gen.DrawLosslessOpts(t)
